@@ -71,3 +71,40 @@ func Harness_day_item() {
 	verifAssert("item-time", item.Time.Equal(ln.Time))
 	hCheckItem(item, foods, book, !cfg.TotalsOnly, cfg.Totals)
 }
+
+// Harness_day_item_long_names: names longer than the columns, two of them equal after
+// shortening; --shorten must not change which records and totals a day has.
+func Harness_day_item_long_names() {
+	const la = "sweets/pasencia white/sm bonus/100g"
+	const lb = "sweets/pasencia brown/sm bonus/100g"
+	db := shared.NewDBNodeMap()
+	raw := shared.NewElements()
+	qa, qb := verifFloat("qty"), verifFloat("qty")
+	if verifChoose("in-book", 2) == 1 {
+		ea, eb := shared.NewElements(), shared.NewElements()
+		ea.Add(la, verifFloat("amt"))
+		eb.Add(lb, verifFloat("amt"))
+		db.Push(&shared.DBNode{Header: "food/one", Elements: ea})
+		db.Push(&shared.DBNode{Header: "food/two", Elements: eb})
+		raw.Add("food/one", qa)
+		raw.Add("food/two", qb)
+	} else {
+		raw.Add(la, qa)
+		raw.Add(lb, qb)
+	}
+	ln, _ := shared.NewLogNodeFromElements(shared.HTime(0), raw, nil)
+	cfg := NewDefaultConfig()
+	plain := GetReportItem(ln, db, cfg)
+	cfg.ShortenStrings = true
+	short := GetReportItem(ln, db, cfg)
+	verifCover("item")
+	verifAssert("shorten-keeps-total-rows", plain.Totals != nil && short.Totals != nil && len(*plain.Totals) == 2 && len(*short.Totals) == 2)
+	if plain.Totals != nil && short.Totals != nil && len(*plain.Totals) == len(*short.Totals) {
+		for i := range *plain.Totals {
+			a, b := (*plain.Totals)[i], (*short.Totals)[i]
+			verifAssert("shorten-keeps-total-names", a.Name == b.Name)
+			verifAssert("shorten-keeps-total-numbers", verifSameFloat(a.Sum, b.Sum) && verifSameFloat(a.Positive, b.Positive) && verifSameFloat(a.Negative, b.Negative))
+		}
+	}
+	verifAssert("shorten-keeps-food-rows", plain.Elements != nil && short.Elements != nil && len(*plain.Elements) == len(*short.Elements))
+}
